@@ -1,11 +1,12 @@
 import Ypv.Lemmas.Order
+import Ypv.Lemmas.EvalKwLoc
 /-!
 # C01 — query results equal the documented segment semantics
 -/
 namespace Ypv.C01
 open Ypv Ypv.Eval Ypv.Spec Gen
 
-variable (mt : Matcher) (dsc : Desc)
+variable (mt : Matcher) (dsc : Desc) (rt : Node)
 
 /-- **The evaluator computes the specification.**  For every matcher, every reading of search
 attributes, every segment list and every start (a document node with any coordinates, or a virtual
@@ -14,13 +15,13 @@ slice list), `_get_required_nodes` (with its probing of following segments, its 
 the same coordinates, in the same order, with the same multiplicity, followed by the same exception
 (if any). -/
 theorem required_eq_select : ∀ (segs : List ESeg) (r : Res),
-    required mt dsc segs r = select mt dsc segs r := by
+    required mt dsc rt segs r = select mt dsc rt segs r := by
   intro segs
   induction segs with
   | nil => intro r; simp [required, select]
   | cons s rest ih =>
     intro r
-    have ihf : required mt dsc rest = select mt dsc rest := funext ih
+    have ihf : required mt dsc rt rest = select mt dsc rt rest := funext ih
     cases r with
     | virt items => simp [required, select, stepRes, ihf]
     | real nc =>
@@ -54,23 +55,78 @@ theorem required_eq_select : ∀ (segs : List ESeg) (r : Res),
               by_cases hd : direct nxt x.1 = true
               · simp only [hd, if_true]
                 rw [← ihf]
-                have : required mt dsc (nxt :: rest') (Res.real x)
-                    = (stepSeg mt dsc nxt rest' true x.1 x.2).bind (required mt dsc rest') := by
+                have : required mt dsc rt (nxt :: rest') (Res.real x)
+                    = (stepSeg mt dsc rt nxt rest' true x.1 x.2).bind (required mt dsc rt rest') := by
                   simp [required, stepRes]
                 rw [this]
                 exact ifAny_bind _ _ _ (fun e he => by simp [he])
               · simp [hd]
         · simp only [required, stepRes]
-          rw [stepSeg_children mt dsc s rest n c hm ht, ihf]
+          rw [stepSeg_children mt dsc rt s rest n c hm ht, ihf]
           cases s <;> simp_all [select]
+
+/-- **A keyword segment selects what `kwSearch` says** (`KeywordSearches.search_matches`, whose
+specification is `Spec` of C13 — `Props/C13.lean`: `max_eq_spec`, `unique_eq_spec`, `parent_eq_spec`, …):
+it raises what `kwSearch` raises; `[name()]` yields the node's own reference as a scalar with the
+node's coordinates; otherwise the results carry exactly the addresses `kwSearch` returns, in that
+order (or the step is out of model: an address that is neither the node, a child nor an ancestor
+below the root). -/
+theorem keyword_selects_kwSearch (inv : Bool) (k : Keyword) (p : Str) (n : Node) (c : Ctx) :
+    match kwSearch n c.addr inv k p with
+    | .error e => children mt dsc rt (.keyword inv k p) n c = Gen.fail e
+    | .ok (.name _) => children mt dsc rt (.keyword inv k p) n c = Gen.one (.real (prefNode c.pref, c))
+    | .ok (.nodes as) =>
+        children mt dsc rt (.keyword inv k p) n c = Gen.fail .outOfModel
+        ∨ ((children mt dsc rt (.keyword inv k p) n c).2 = none
+            ∧ (children mt dsc rt (.keyword inv k p) n c).1.map W1.resAddr = as) := by
+  simp only [children, kwStep]
+  cases hs : kwSearch n c.addr inv k p with
+  | error e => rfl
+  | ok o =>
+    cases o with
+    | name r => rfl
+    | nodes as =>
+      simp only []
+      cases hr : kwResolveAll rt n c as with
+      | none => left; rfl
+      | some l =>
+        right
+        refine ⟨rfl, ?_⟩
+        simp only [Gen.map, Gen.ofList, List.map_map]
+        have := W1.kwResolveAll_addrs hr
+        simpa [Function.comp_def, W1.resAddr] using this
+
+/-- … and at a located node of the document the nodes returned are the very nodes at those
+addresses (a child of the node, the node itself, or its ancestor). -/
+theorem keyword_results_at_addresses {d n : Node} {c : Ctx} (hl : Loc d n c) (inv : Bool) (k : Keyword) (p : Str)
+    (as : List Addr) (hs : kwSearch n c.addr inv k p = .ok (.nodes as)) :
+    ∀ r ∈ (children mt dsc d (.keyword inv k p) n c).1, ∃ x, r = .real x ∧ d.get? x.2.addr = some x.1 := by
+  intro r hr
+  simp only [children, kwStep, hs] at hr
+  cases hra : kwResolveAll d n c as with
+  | none => rw [hra] at hr; simp [Gen.fail, Gen.map] at hr
+  | some l =>
+    rw [hra] at hr
+    simp only [Gen.map, Gen.ofList, List.mem_map] at hr
+    obtain ⟨x, hx, rfl⟩ := hr
+    obtain ⟨a, _, ha⟩ := W1.kwResolveAll_mem hra x hx
+    exact ⟨x, rfl, W1.kwResolve_get hl ha⟩
+
+/-- `[parent()]` after a key: the model climbs to the hash (kernel-checked instance of the larger
+fragment of `required_eq_select`). -/
+example : (select (fun _ _ _ => .ok true) Desc.none
+      (.map none [(.str ['a'], .map none [(.str ['b'], .scalar none (.int 1))])])
+      [.key ['a'], .key ['b'], .keyword false .parent ['2']]
+      (.real (.map none [(.str ['a'], .map none [(.str ['b'], .scalar none (.int 1))])], Ctx.root))).1.map W1.resAddr
+    = [[]] := by decide +kernel
 
 /-- `Processor.get_nodes(path, mustexist=True)` delivers `Spec.select` of the path on the document
 (nothing for a null document), and raises "unmatched" after an empty selection. -/
 theorem getRequired_eq_select (segs : List ESeg) (d : Node) :
     getRequired mt dsc segs d =
       if d.evIsNull then Gen.nil else
-      Gen.append (select mt dsc segs (.real (d, Ctx.root)))
-        (if (select mt dsc segs (.real (d, Ctx.root))).1.isEmpty then Gen.fail (.ypath .unmatched) else Gen.nil) := by
+      Gen.append (select mt dsc d segs (.real (d, Ctx.root)))
+        (if (select mt dsc d segs (.real (d, Ctx.root))).1.isEmpty then Gen.fail (.ypath .unmatched) else Gen.nil) := by
   simp [getRequired, required_eq_select]
 
 /-- `Processor.exists(path)` is true exactly when the specification selects at least one node
@@ -78,7 +134,7 @@ theorem getRequired_eq_select (segs : List ESeg) (d : Node) :
 theorem exists_iff_select_nonempty (segs : List ESeg) (d : Node) :
     existsQ mt dsc segs d =
       if d.evIsNull then .ok false else
-      match (select mt dsc segs (.real (d, Ctx.root))).collapse with
+      match (select mt dsc d segs (.real (d, Ctx.root))).collapse with
       | .ok l => .ok (!l.isEmpty)
       | .error e => .error e := by
   simp only [existsQ, required_eq_select]
@@ -89,13 +145,13 @@ anchor) comes up empty, and no null node is selected before the last segment.  D
 def allExist : List ESeg → Res → Bool
   | [], _ => true
   | s :: rest, r =>
-    let g := stepRes mt dsc s rest r
+    let g := stepRes mt dsc rt s rest r
     !(g.1.isEmpty && g.2.isNone && s.creates)
       && g.1.all (fun r' => (rest.isEmpty || !r'.isNullNode) && allExist rest r')
 
 /-- An optional-match query on a path that already exists answers like the required-match query. -/
 theorem optional_eq_required_of_exists : ∀ (segs : List ESeg) (r : Res),
-    allExist mt dsc segs r = true → Eval.optional mt dsc segs r = required mt dsc segs r := by
+    allExist mt dsc rt segs r = true → Eval.optional mt dsc rt segs r = required mt dsc rt segs r := by
   intro segs
   induction segs with
   | nil => intro r _; rfl
@@ -105,9 +161,9 @@ theorem optional_eq_required_of_exists : ∀ (segs : List ESeg) (r : Res),
       Bool.not_eq_eq_eq_not, Bool.not_true] at h
     obtain ⟨h1, h2⟩ := h
     simp only [Eval.optional, required]
-    have hb : (stepRes mt dsc s rest r).bind
-          (fun r' => if r'.isNullNode = true then Gen.one r' else Eval.optional mt dsc rest r')
-        = (stepRes mt dsc s rest r).bind (required mt dsc rest) := by
+    have hb : (stepRes mt dsc rt s rest r).bind
+          (fun r' => if r'.isNullNode = true then Gen.one r' else Eval.optional mt dsc rt rest r')
+        = (stepRes mt dsc rt s rest r).bind (required mt dsc rt rest) := by
       apply bind_congr_mem
       intro x hx
       obtain ⟨hn, ha⟩ := h2 x hx
@@ -122,24 +178,24 @@ theorem optional_eq_required_of_exists : ∀ (segs : List ESeg) (r : Res),
         | inr hf => simp [hx0] at hf
       · simp [hx0]
     rw [hb]
-    by_cases hc : ((stepRes mt dsc s rest r).1.isEmpty && s.creates) = true
+    by_cases hc : ((stepRes mt dsc rt s rest r).1.isEmpty && s.creates) = true
     · simp only [hc, if_true]
-      have hne : (stepRes mt dsc s rest r).2 ≠ none := by
+      have hne : (stepRes mt dsc rt s rest r).2 ≠ none := by
         intro hnone
         simp only [Bool.and_eq_true] at hc
         simp [hc.1, hc.2, hnone] at h1
       obtain ⟨e, he⟩ := Option.ne_none_iff_exists'.mp hne
-      have hemp : (stepRes mt dsc s rest r).1 = [] := by
+      have hemp : (stepRes mt dsc rt s rest r).1 = [] := by
         simp only [Bool.and_eq_true, List.isEmpty_iff] at hc
         exact hc.1
-      have : stepRes mt dsc s rest r = ([], some e) := by
+      have : stepRes mt dsc rt s rest r = ([], some e) := by
         rw [← hemp, ← he]
       rw [this]
       simp
       rfl
     · simp [hc]
 
-example : allExist (fun _ _ _ => .ok true) Desc.none [.key ['a'], .index 0]
+example : allExist (fun _ _ _ => .ok true) Desc.none (.scalar none .null) [.key ['a'], .index 0]
     (.real (.map none [(.str ['a'], .seq none [.scalar none (.int 1)])], Ctx.root)) = true := by
   decide +kernel
 
@@ -148,10 +204,10 @@ slices, the addresses of the selected nodes form a subsequence of the document's
 order (pre-order), and no address occurs twice.  (More is proved in `ord_required`: the subtrees of the
 results are pairwise disjoint.) -/
 theorem select_sorted_nodup {d : Node} (hd : d.WF) (segs : List ESeg) (hs : ∀ s ∈ segs, s.ordered = true) :
-    ((flatR (select mt dsc segs (.real (d, Ctx.root))).1).map (·.2.addr)).Sublist (addrsAll d [])
-    ∧ ((flatR (select mt dsc segs (.real (d, Ctx.root))).1).map (·.2.addr)).Nodup := by
+    ((flatR (select mt dsc rt segs (.real (d, Ctx.root))).1).map (·.2.addr)).Sublist (addrsAll d [])
+    ∧ ((flatR (select mt dsc rt segs (.real (d, Ctx.root))).1).map (·.2.addr)).Nodup := by
   rw [← required_eq_select]
-  have h := ord_required (mt := mt) (dsc := dsc) segs hs d Ctx.root
+  have h := ord_required (mt := mt) (dsc := dsc) (rt := rt) segs hs d Ctx.root
   have hsub := List.Sublist.trans (addrs_sublist_flatMap_sub _) h
   exact ⟨hsub, List.Nodup.sublist hsub (addrsAll_nodup d hd [])⟩
 
@@ -162,7 +218,7 @@ code; recorded in notes/C01.md as a reading of "`**` matches every node for whic
 segments match"). -/
 example :
     (flatR (select (fun _ n t => match n with | .scalar _ (.str s) => .ok (s == t) | _ => .ok false) Desc.none
-      [.traverse, .search false .equals ['.'] ['x']]
+      (.scalar none .null) [.traverse, .search false .equals ['.'] ['x']]
       (.real (.map none [(.str ['x'], .scalar none (.str ['x']))], Ctx.root))).1).map (·.2.addr)
     = [[.key (.str ['x'])], [.key (.str ['x'])]] := by decide +kernel
 
